@@ -35,41 +35,19 @@ func runC13(c *Ctx) {
 	if p == nil {
 		return
 	}
+	// shared with C14: MultipleMatch collects its matches from goroutines through one queue; unless every operation on it
+	// holds the queue's mutex, pushes are lost and a verbatim copy goes unreported (R14.4)
+	{
+		qfns := pkgFuncs(p, scPkg)
+		flows := map[*ssa.Function]*eng.LockFlow{}
+		for _, f := range qfns {
+			flows[f] = eng.NewLockFlow(f)
+		}
+		checkQueueMutex(c, p, qfns, flows)
+	}
 	total, _ := checkMustCompile(c, p, "R13.1", core.RootMod)
 	c.R.RequireMin("R13.1", "regexp.MustCompile call sites in the root module", total, 25)
-	// values registered by AddValue/AddPrecomputedValue are quoted before compilation
-	nCompile := 0
-	for _, name := range []string{"(*Classifier).AddValue", "(*Classifier).AddPrecomputedValue"} {
-		fn := p.Func(scPkg, name)
-		if !c.R.Anchor(fn != nil, "stringclassifier."+name) {
-			continue
-		}
-		for _, call := range core.CallsIn(fn) {
-			n := core.StaticCalleeName(call.Common())
-			if n != "regexp.Compile" && n != "regexp.MustCompile" {
-				continue
-			}
-			nCompile++
-			arg := call.Common().Args[0]
-			quoted := isCallTo(arg, "regexp.QuoteMeta")
-			c.R.Check(quoted, "R13.1", core.ShortFn(fn)+": the registered value is quoted before it is compiled", p.Pos(call.Pos()),
-				"regexp.Compile(regexp.QuoteMeta(value))", "a known value is compiled as a regular expression without quoting: metacharacters in it change what the exact-occurrence shortcut matches (and may not compile)")
-			// the error of Compile must be returned, not dropped
-			if n == "regexp.Compile" {
-				cv, _ := call.(*ssa.Call)
-				used := false
-				if cv != nil {
-					for _, r := range *cv.Referrers() {
-						if ex, ok := r.(*ssa.Extract); ok && ex.Index == 1 && len(*ex.Referrers()) > 0 {
-							used = true
-						}
-					}
-				}
-				c.R.Check(used, "R13.1", core.ShortFn(fn)+": the compile error is checked", p.Pos(call.Pos()), "error result is used", "the error of regexp.Compile is discarded")
-			}
-		}
-	}
-	c.R.RequireMin("R13.1", "compile sites for registered values", nCompile, 2)
+	checkRegisteredValueQuoted(c, p)
 
 	// R13.2
 	fns := pkgFuncs(p, scPkg)
@@ -290,11 +268,54 @@ func runC13(c *Ctx) {
 	}
 }
 
+// checkRegisteredValueQuoted: R13.1 (second half). A value registered by AddValue/AddPrecomputedValue is quoted before it is
+// compiled for the exact-occurrence shortcut, and the compile error is not dropped.
+func checkRegisteredValueQuoted(c *Ctx, p *core.Prog) {
+	// values registered by AddValue/AddPrecomputedValue are quoted before compilation
+	nCompile := 0
+	for _, name := range []string{"(*Classifier).AddValue", "(*Classifier).AddPrecomputedValue"} {
+		fn := p.Func(scPkg, name)
+		if !c.R.Anchor(fn != nil, "stringclassifier."+name) {
+			continue
+		}
+		for _, call := range core.CallsIn(fn) {
+			n := core.StaticCalleeName(call.Common())
+			if n != "regexp.Compile" && n != "regexp.MustCompile" {
+				continue
+			}
+			nCompile++
+			arg := call.Common().Args[0]
+			quoted := isCallTo(arg, "regexp.QuoteMeta")
+			c.R.Check(quoted, "R13.1", core.ShortFn(fn)+": the registered value is quoted before it is compiled", p.Pos(call.Pos()),
+				"regexp.Compile(regexp.QuoteMeta(value))", "a known value is compiled as a regular expression without quoting: metacharacters in it change what the exact-occurrence shortcut matches (and may not compile)")
+			// the error of Compile must be returned, not dropped
+			if n == "regexp.Compile" {
+				cv, _ := call.(*ssa.Call)
+				used := false
+				if cv != nil {
+					for _, r := range *cv.Referrers() {
+						if ex, ok := r.(*ssa.Extract); ok && ex.Index == 1 && len(*ex.Referrers()) > 0 {
+							used = true
+						}
+					}
+				}
+				c.R.Check(used, "R13.1", core.ShortFn(fn)+": the compile error is checked", p.Pos(call.Pos()), "error result is used", "the error of regexp.Compile is discarded")
+			}
+		}
+	}
+	c.R.RequireMin("R13.1", "compile sites for registered values", nCompile, 2)
+
+}
+
 func runC16(c *Ctx) {
 	p := c.Prog("")
 	if p == nil {
 		return
 	}
+	// shared with C14: NearestMatch/MultipleMatch keep no scratch state between calls (R14.5); shared with C15: every
+	// archived text is read completely and paired with its own search set when the corpus is loaded (R15.2, R15.4)
+	checkV1SharedWrites(c, p)
+	borrowRules(c, []string{"R15.2", "R15.4"}, runC15)
 	mm := p.Func(core.RootMod, "(*License).MultipleMatch")
 	wct := p.Func(core.RootMod, "(*License).WithinConfidenceThreshold")
 	if !c.R.Anchor(mm != nil, "(*License).MultipleMatch") || !c.R.Anchor(wct != nil, "(*License).WithinConfidenceThreshold") {
